@@ -1,6 +1,7 @@
 package engine
 
 import (
+	"time"
 	"errors"
 	"fmt"
 	"strconv"
@@ -43,6 +44,8 @@ const (
 	BPanicEmpty
 	BHelperPanic
 	BTwoHelpers
+	BPanicBadStringer
+	BHelperFailNow
 	NumBehaviours
 )
 
@@ -54,12 +57,13 @@ var BehaviourNames = []string{"pass", "Fail", "FailNow", "Error", "Errorf", "Fat
 	"panic(error)", "panic(string)", "panic(int)", "panic(struct)", "nil-map-write", "index-out-of-range", "nil-deref",
 	"panic(error-with-permissive-Is)", "panic(nil)", "panic(error-named-FailNow)", "panic([]int)", "panic(slice-typed error)", "panic(map)",
 	"Error(nil)", "Fatal(nil)", "FailNow-on-the-setup-handle", "require-on-the-setup-handle",
-	"panic(\"\")", "panic-in-helper-goroutine-guarded-by-CheckResults", "two-guarded-helpers-sharing-one-done-channel"}
+	"panic(\"\")", "panic-in-helper-goroutine-guarded-by-CheckResults", "two-guarded-helpers-sharing-one-done-channel",
+	"panic(value-whose-String-panics)", "FailNow-in-helper-goroutine-guarded-by-CheckResults"}
 
 // Stops reports whether the behaviour ends the function at that point.
 func Stops(kind int) bool {
 	switch kind {
-	case BPass, BFail, BError, BErrorf, BAssert, BHelperPanic, BTwoHelpers:
+	case BPass, BFail, BError, BErrorf, BAssert, BHelperPanic, BTwoHelpers, BHelperFailNow:
 		return false
 	}
 	return true
@@ -72,6 +76,13 @@ type permissiveErr struct{}
 
 func (permissiveErr) Error() string { return "permissive error" }
 func (permissiveErr) Is(error) bool { return true }
+
+// HelperSignalsLost counts guarded helpers whose completion signal did not arrive within 10 s.
+var HelperSignalsLost atomic.Int64
+
+type badStringer struct{ name string }
+
+func (b *badStringer) String() string { return "bad stringer " + b.name }
 
 // sliceErr is an error of a non-comparable dynamic type (like validator.ValidationErrors).
 type sliceErr []string
@@ -156,6 +167,23 @@ func Behave(t *f1testing.T, kind int) {
 			panic("planned panic in a helper goroutine")
 		}()
 		<-done
+	case BPanicBadStringer:
+		// a panic value with a String method that itself panics (a nil pointer with a pointer-receiver String)
+		var v *badStringer
+		panic(v)
+	case BHelperFailNow:
+		// a guarded helper that ends through FailNow: the guard still signals, the function carries on and is failed
+		done := make(chan struct{})
+		go func() {
+			defer f1testing.CheckResults(t, done)
+			t.FailNow()
+		}()
+		select {
+		case <-done:
+		case <-time.After(10 * time.Second):
+			HelperSignalsLost.Add(1)
+			t.Fail()
+		}
 	case BTwoHelpers:
 		// fan-out: two guarded helpers report on one channel, one receive per helper; one of them panics
 		done := make(chan struct{})
